@@ -222,7 +222,11 @@ P["C04"] = dict(
     claimed=True,
     technique="static analysis: call-graph cycle analysis with explicit fn-pointer edges, dominance of the depth "
               "guard, provenance of re-entering calls, ranking functions for every loop of the resolution code",
-    decides=["R-FORWARD-SELF: the arguments of a macro invocation pass a filter on `$` self-references before they are merged into the caller's values",
+    decides=["R-REC-GUARD (limit-room): the nesting limit is at least 50 macro expansions at the level cost of one expansion",
+             "R-PIPELINE-NO-NAME: operator_name answers the empty string for pipelines before it looks at the parameters",
+             "R-CHASE-MISSING: chase answers `not given` only where the flag that a $name look-up is in progress is known to be false",
+             "R-NEST-UNIT: the nesting counter of RawParameters::next advances only where a macro is expanded (known finding on the current tree: it advances for every frame, so nesting deeper than 48 / 19 levels is refused)",
+             "R-FORWARD-SELF: the arguments of a macro invocation pass a filter on `$` self-references before they are merged into the caller's values",
              "R-CHASE-NEEDLE: where chase takes the next needle off a `$name(default)` list, the list holds exactly the name on every path",
              "R-CHASE-VISITED: chase's search predicate questions the whole growing collection of followed entries",
              "R-REC-GUARD: every call cycle of the instantiation code passes through Op::op; nesting_too_deep() "
@@ -249,7 +253,9 @@ P["C09"] = dict(
     claimed=True,
     technique="static analysis: key-availability dataflow between constructors and parameter-table readers, "
               "validation-before-unwrap, ranking functions for all loops, recursion guard, ellipsoid table grammar",
-    decides=["R-USER-I64-ARITH: every plain + / - on the i64 roll arguments in the stack interpreter is overflow-free by the known signs of its operands, or uses saturating / wrapping arithmetic",
+    decides=["R-GRID-SIZE-CHECK: no BaseGrid holding its own values is shorter than the interpolation indexes it",
+             "R-STR-SLICE also covers str::split_at and the byte-offset methods of String",
+             "R-USER-I64-ARITH: every plain + / - on the i64 roll arguments in the stack interpreter is overflow-free by the known signs of its operands, or uses saturating / wrapping arithmetic",
              "R-UNSIGNED-SUB: no constant is subtracted from a natural-number parameter without a dominating test that the parameter is at least that large",
              "R-INDEX-VALIDATION (roll/unroll): a negative n below -m cannot reach stack_roll (m + n would wrap to a huge number of rotations)",
              "R-GRIDS-INDEX-GUARD: grids[k] in an operator function is read behind a non-emptiness test of that grid list",
@@ -308,7 +314,9 @@ P["C15"] = dict(
     technique="static analysis: interprocedural affine bounds analysis of every read of the NTv2 byte buffer against "
               "dominating length comparisons; zero-divisor guards; constructor-established invariants needed by the "
               "query code; classification of every unwrap in grid::*; ranking functions; NTv2 record offsets vs the format",
-    decides=["R-ROWCOUNT-AGREE: all row / column counts of the plain-grid code round with the same constant (reader and BaseGrid::plain agree on the size of the grid)",
+    decides=["R-NTV2-OFFSET-ACCUMULATES: the record offset handed to the NTv2 sub-grid decoder is built from loop state that accumulates",
+             "R-GRID-SIZE-CHECK: under `offset value is 0 and rows * cols * bands exceeds the vector` the block that builds a BaseGrid is unreachable",
+             "R-ROWCOUNT-AGREE: all row / column counts of the plain-grid code round with the same constant (reader and BaseGrid::plain agree on the size of the grid)",
              "R-COMMENT-FIRST: the Gravsoft reader cuts a line at its first `#`",
              "R-BOUNDED-READ: every read of the NTv2 buffer (slice ranges, indexed bytes) reachable from "
              "Ntv2Grid::new is dominated by a comparison with the buffer length that implies it is in bounds",
@@ -333,7 +341,10 @@ P["C03"] = dict(
     claimed=True,
     technique="static analysis: shape, typestate and provenance rules on the two pipeline interpreter functions found "
               "through the operator registry; boolean abstract interpretation of the direction dispatch",
-    decides=["R-INV-DECLARED: every built-in constructor that registers an inverse declares the flag `inv` in its gamut (three reviewed exceptions: push, pop, stack)",
+    decides=["R-PIPELINE-WRAPPED: a pipeline definition is always handed to pipeline::new, whatever its number of steps",
+             "R-PIPE-OWN-PARAMS (own-modifiers): the pipeline's own parameters are parsed from values that still hold the invocation's omit_fwd / omit_inv",
+             "R-PIPELINE-NO-NAME: a pipeline that starts with a macro step is not taken for a macro invocation",
+             "R-INV-DECLARED: every built-in constructor that registers an inverse declares the flag `inv` in its gamut (three reviewed exceptions: push, pop, stack)",
              "R-PIPE-ORDER: pipeline_fwd iterates op.steps in order, pipeline_inv in reverse, over all steps (no early "
              "exit), dispatching each non-skipped step exactly once",
              "R-PIPE-DUAL: skip flags / Direction constants / legacy push-pop-stack arms are exchanged between the "
@@ -359,7 +370,8 @@ P["C13"] = dict(
     claimed=True,
     technique="static analysis: abstract interpretation of the value graph in a unit domain (deg/rad) and an additive "
               "polarity domain for the false origin; affine extraction of the UTM constants; sign-slice of aspect selection",
-    decides=["R-PARALLELS-SYMMETRIC: every branch condition of lcc::new on an arithmetic combination of both standard parallels is symmetric in them, and lat_0 defaults to lat_1 on the strength of |lat_1 - lat_2| < eps",
+    decides=["R-LIMIT-ON-PLANE: the strip limit of the transverse Mercator inverse is applied to the input with the false easting removed",
+             "R-PARALLELS-SYMMETRIC: every branch condition of lcc::new on an arithmetic combination of both standard parallels is symmetric in them, and lat_0 defaults to lat_1 on the strength of |lat_1 - lat_2| < eps",
              "R-LATTS-K0 (even): the decision to derive k_0 from lat_ts does not depend on the sign of lat_ts",
              "R-K0-LINEAR: for merc, lcc, btmerc, butm the forward easting / northing are exactly offset + k_0 * G (G free of k_0, offset exactly x_0 / y_0), and in the inverse every arithmetic expression of the input depends on it only through (input - offset) / k_0 (exact rational-function identities)",
              "R-SIGN-CARRIER: the sign of a sexagesimal lon_0 / lat_0 / lat_ts is taken from the sign bit and the hemisphere letter on every returned value",
@@ -485,7 +497,8 @@ P["C16"] = dict(
 P["C17"] = dict(
     claimed=True,
     technique="static analysis: who-calls and dataflow rules on Plain::op and parse_proj (value graph, control dependence)",
-    decides=["R-PROJ-PASSTHROUGH: a definition containing `|`, and one not containing `proj`, never reaches the translation (three-valued reachability over the guard)",
+    decides=["R-PROJ-GLOBALS-KEPT: the filter that builds the pipeline globals excludes exactly the element `inv`",
+             "R-PROJ-PASSTHROUGH: a definition containing `|`, and one not containing `proj`, never reaches the translation (three-valued reachability over the guard)",
              "R-PROJ-TIDY-INDEPENDENT: the k= -> k_0= repair is reached whichever way the a / rf repair is decided",
              "R-PROJ-PLUS: `+` is removed only where it starts a token (after white space or at the start of the text)",
              
